@@ -111,8 +111,12 @@ def chain_cases(draw, tier="quick"):
         ed = draw(st.integers(1, 28))
         fmt = draw(st.sampled_from(["datetime", "str-month", "str-day"]))
         return {"cls": cls, "mode": "span", "start": [y, m, d], "end": [ey, emo + 1, ed], "fmt": fmt}
+    # explicit (shuffled) contract lists stay on the class's own listing cycle - the cycle FutureChain(cls, start, end)
+    # itself lists (quarterly for ES/NK/Treasuries, monthly for VX): the statement speaks of chains "built from a
+    # built-in class over a span". (Adjacent *monthly* Treasury contracts can share a last trading date.)
     y0 = draw(st.integers(1970, 2060))
-    items = draw(st.lists(st.tuples(st.integers(0, 30), st.integers(1, 12)), min_size=1, max_size=12, unique=True))
+    months = st.integers(1, 12) if cls == "VX" else st.sampled_from([3, 6, 9, 12])
+    items = draw(st.lists(st.tuples(st.integers(0, 30), months), min_size=1, max_size=12, unique=True))
     return {"cls": cls, "mode": "list", "contracts": [[y0 + dy, m] for dy, m in items]}
 
 
